@@ -65,6 +65,22 @@ pub struct RunResult {
     pub diverged: bool,
     pub leftover_decisions: usize,
     pub verbose_log: Option<Vec<String>>,
+    /// the run was cut short at a crash point (session histories only)
+    pub crashed: Option<world::CrashKind>,
+    pub torn_write: bool,
+    /// crash points (file-system mutations and prints) the run passed
+    pub crash_points: u64,
+    pub fs_mutations: u64,
+    pub metadata_queries: u64,
+    /// what the run leaves behind for the next run of its session
+    pub disk_after: world::Disk,
+}
+
+/// What a run of a session starts from and where it is cut short.
+#[derive(Clone, Default)]
+pub struct RunEnv {
+    pub disk: Option<world::Disk>,
+    pub crash: Option<world::CrashPlan>,
 }
 
 /// Install the process-wide panic hook once: inside a simulated run a panic is recorded
@@ -92,6 +108,9 @@ pub fn install_panic_hook() {
                     format!("{}:{}", f, l.line())
                 })
                 .unwrap_or_else(|| "<unknown>".into());
+            if std::env::var_os("GENSIM_DEBUG_PANICS").is_some() {
+                eprintln!("[in-sim panic] {} at {}\n{}", msg, loc, std::backtrace::Backtrace::force_capture());
+            }
             world::PANIC_INFO.with(|p| *p.borrow_mut() = Some(format!("{} at {}", msg, loc)));
         } else {
             default(info);
@@ -101,6 +120,11 @@ pub fn install_panic_hook() {
 
 pub fn execute(gen: Gen, image: &Arc<FsImage>, mode: Mode, collect: bool, verbose: bool) -> RunResult {
     execute_with(gen, image, mode, collect, verbose, None)
+}
+
+/// One run of a session: starts on the disk earlier runs left behind, may be cut short.
+pub fn execute_env(gen: Gen, image: &Arc<FsImage>, mode: Mode, env: &RunEnv, verbose: bool) -> RunResult {
+    execute_full(gen, image, mode, false, verbose, None, env)
 }
 
 /// Set once a generator was seen to use threads or sync primitives: from then on every run of this
@@ -266,9 +290,21 @@ pub fn execute_with(
     verbose: bool,
     hard: Option<world::HardPlan>,
 ) -> RunResult {
+    execute_full(gen, image, mode, collect, verbose, hard, &RunEnv::default())
+}
+
+fn execute_full(
+    gen: Gen,
+    image: &Arc<FsImage>,
+    mode: Mode,
+    collect: bool,
+    verbose: bool,
+    hard: Option<world::HardPlan>,
+    env: &RunEnv,
+) -> RunResult {
     use std::sync::atomic::Ordering;
     if !USE_SHUTTLE.load(Ordering::Relaxed) {
-        let r = execute_once(gen, image, mode.clone(), collect, verbose, hard, false);
+        let r = execute_once(gen, image, mode.clone(), collect, verbose, hard, false, env);
         match &r.panic {
             Some(p) if p.contains(NEEDS_SHUTTLE) => {
                 // the generator touched a thread / lock / channel / atomic: run it under the engine
@@ -277,7 +313,7 @@ pub fn execute_with(
             _ => return r,
         }
     }
-    execute_once(gen, image, mode, collect, verbose, hard, true)
+    execute_once(gen, image, mode, collect, verbose, hard, true, env)
 }
 
 fn execute_once(
@@ -288,6 +324,7 @@ fn execute_once(
     verbose: bool,
     hard: Option<world::HardPlan>,
     under_shuttle: bool,
+    env: &RunEnv,
 ) -> RunResult {
     let profile = match &mode {
         Mode::Random { profile, .. } => Some(*profile),
@@ -296,6 +333,10 @@ fn execute_once(
     world::PANIC_INFO.with(|p| *p.borrow_mut() = None);
     let mut fresh = World::new(image.clone(), mode, collect, verbose);
     fresh.hard = hard;
+    if let Some(d) = &env.disk {
+        fresh.load_disk(d);
+    }
+    fresh.crash = env.crash;
     if under_shuttle {
         fresh.stats.shuttle_runs = 1;
         fresh.under_shuttle = true;
@@ -311,10 +352,11 @@ fn execute_once(
         catch_unwind(AssertUnwindSafe(|| run_generator(gen)))
     };
     leave_run();
-    let w = world::uninstall();
+    let mut w = world::uninstall();
     let mut exit_code = None;
     let mut panic = match r {
         Ok(()) => None,
+        Err(_) if w.crashed.is_some() => None,
         Err(payload) => match payload.downcast_ref::<crate::seams::simenv::ExitRequest>() {
             Some(e) => {
                 exit_code = Some(e.0);
@@ -345,7 +387,8 @@ fn execute_once(
     }
     // what the generator produced: its stdout; if it printed nothing but wrote files, the file
     // that replaces the checked-in table (or, failing that, everything it wrote)
-    let mut out = w.out;
+    let disk_after = w.disk_after();
+    let mut out = std::mem::take(&mut w.out);
     if out.trim().is_empty() && !w.written.is_empty() {
         let want = match gen {
             Gen::Layout => "layout_table.rs",
@@ -366,6 +409,12 @@ fn execute_once(
         _ => 0,
     };
     RunResult {
+        crashed: w.crashed,
+        torn_write: w.torn_write,
+        crash_points: w.crash_points,
+        fs_mutations: w.fs_mutations,
+        metadata_queries: w.metadata_queries,
+        disk_after,
         gen,
         profile,
         trace: w.trace,
@@ -378,7 +427,7 @@ fn execute_once(
         panic,
         exit_code,
         hard_fired: w.hard_fired,
-        stalled: w.stalled || w.missing_program,
+        stalled: w.stalled || w.missing_program || w.fd_exhausted,
         under_shuttle,
         sched_digest: w.sched_digest.0,
         diverged: w.diverged,
@@ -448,6 +497,247 @@ pub fn judge(r: &RunResult, comp: &BTreeMap<String, Val>, good: &mut Vec<String>
         good.push(r.out.clone());
     }
     v
+}
+
+// ---------------------------------------------------------------------------------------------
+// sessions: histories of runs on one machine, some of them cut short (crash / power loss)
+// ---------------------------------------------------------------------------------------------
+
+/// One run of a session.
+#[derive(Clone)]
+pub struct Step {
+    pub mode: Mode,
+    /// where the run is cut short (never for the last run of a session)
+    pub crash: Option<world::CrashPlan>,
+    /// how far the wall clock moved since the previous run ended (negative: it was stepped back)
+    pub gap_ns: i64,
+    /// the run saw an earlier version of the data (never for the last run of a session)
+    pub drift: Vec<world::Drift>,
+}
+
+pub struct SessionResult {
+    /// every run of the session, the judged one last
+    pub runs: Vec<RunResult>,
+}
+
+impl SessionResult {
+    pub fn last(&self) -> &RunResult {
+        self.runs.last().expect("a session has at least one run")
+    }
+    /// digest of everything observable: event logs and what each run left on disk
+    pub fn digest(&self) -> u64 {
+        let mut d = crate::rng::Fnv::default();
+        for r in &self.runs {
+            d.u64(r.log_digest);
+            d.u64(r.disk_after.digest());
+            d.u64(r.crashed.map(|k| 1 + k as u64).unwrap_or(0));
+        }
+        d.0
+    }
+}
+
+pub fn execute_session(gen: Gen, image: &Arc<FsImage>, steps: &[Step], mtime_seed: u64, verbose: bool) -> SessionResult {
+    let mut disk = world::Disk::fresh(mtime_seed);
+    let mut runs = vec![];
+    for st in steps {
+        disk.clock_ns = (disk.clock_ns as i128 + st.gap_ns as i128).max(1) as u64;
+        let env = RunEnv {
+            disk: Some(disk.clone()),
+            crash: st.crash,
+        };
+        let r = if st.drift.is_empty() {
+            execute_env(gen, image, st.mode.clone(), &env, verbose)
+        } else {
+            let old = Arc::new(image.with_drift(&st.drift));
+            execute_env(gen, &old, st.mode.clone(), &env, verbose)
+        };
+        disk = r.disk_after.clone();
+        runs.push(r);
+    }
+    SessionResult { runs }
+}
+
+/// Seeded session `i`: one to three earlier runs, each under its own schedule and most of them cut
+/// short at a seeded crash point, then the run that is judged. `m0` = crash points of a complete
+/// run under the default schedule (a crash index beyond the run's own count lets it complete).
+pub fn session_steps(seed: u64, gen: Gen, image: &FsImage, i: u64, m0: u64) -> (Vec<Step>, u64) {
+    let mut rng = Rng::new(run_seed(seed, gen.stream() + 64, i));
+    let mtime_seed = rng.next_u64();
+    let n_prev = [1usize, 1, 1, 2, 2, 3][rng.below(6) as usize];
+    let mut steps = vec![];
+    let base = (1u64 << 40) | (i << 2);
+    let mode_of = |rng: &mut Rng, j: u64| -> Mode {
+        if rng.chance(1, 4) {
+            replay_mode(&[])
+        } else {
+            random_mode(seed, gen, base | j)
+        }
+    };
+    let gap_of = |rng: &mut Rng| -> i64 {
+        match rng.below(10) {
+            0 => 0,
+            1 => -((1 + rng.below(3_600)) as i64) * 1_000_000_000,
+            2..=5 => (1_000_000 + rng.below(10_000_000_000)) as i64,
+            _ => ((60 + rng.below(30 * 86_400)) as i64) * 1_000_000_000,
+        }
+    };
+    for j in 0..n_prev as u64 {
+        let mode = mode_of(&mut rng, j);
+        let crash = world::CrashPlan {
+            at: rng.below(m0 + m0 / 4 + 2),
+            kind: if rng.chance(1, 2) { world::CrashKind::Kill } else { world::CrashKind::PowerLoss },
+            salt: rng.next_u64(),
+        };
+        let gap_ns = if j == 0 { 0 } else { gap_of(&mut rng) };
+        // every other earlier run saw an earlier version of the data (a CLDR update happened
+        // since); such a run is cut short only half of the time
+        let drift = if rng.chance(1, 2) { image.draw_drift(&mut rng) } else { vec![] };
+        let crash = if !drift.is_empty() && rng.chance(1, 2) { None } else { Some(crash) };
+        steps.push(Step { mode, crash, gap_ns, drift });
+    }
+    let mode = mode_of(&mut rng, 3);
+    let gap_ns = gap_of(&mut rng);
+    steps.push(Step {
+        mode,
+        crash: None,
+        gap_ns,
+        drift: vec![],
+    });
+    (steps, mtime_seed)
+}
+
+/// Verdict of a session: only its last run is judged, and only when it ran to completion — a run
+/// that finds the leftovers of a crashed predecessor may refuse to work (fail loudly); it may not
+/// complete with a table that differs from what the CLDR data determine.
+pub fn judge_session(s: &SessionResult, comp: &BTreeMap<String, Val>, good: &mut Vec<String>) -> Vec<Violation> {
+    let last = s.last();
+    if last.panic.is_some() && s.runs.len() > 1 {
+        return vec![];
+    }
+    let hist: Vec<String> = s.runs[..s.runs.len() - 1]
+        .iter()
+        .map(|r| match r.crashed {
+            Some(k) => format!("{} at crash point {}", k.name(), r.crash_points.saturating_sub(1)),
+            None if r.panic.is_some() => "failed".to_string(),
+            None => "completed".to_string(),
+        })
+        .collect();
+    judge(last, comp, good)
+        .into_iter()
+        .map(|mut v| {
+            if !hist.is_empty() {
+                v.detail = format!("after a history of {} earlier run(s) on the same machine ({}): {}", hist.len(), hist.join("; "), v.detail);
+            }
+            v
+        })
+        .collect()
+}
+
+/// Explicit form of the steps of an executed session (each run's recorded schedule).
+pub type ExplicitStep = (Vec<Decision>, Option<world::CrashPlan>, i64, Vec<world::Drift>);
+
+pub fn explicit_steps(steps: &[Step], res: &SessionResult) -> Vec<ExplicitStep> {
+    steps
+        .iter()
+        .zip(res.runs.iter())
+        .map(|(st, r)| (r.trace.clone(), st.crash, st.gap_ns, st.drift.clone()))
+        .collect()
+}
+
+pub fn steps_from_explicit(e: &[ExplicitStep]) -> Vec<Step> {
+    e.iter()
+        .map(|(sched, crash, gap, drift)| Step {
+            mode: replay_mode(sched),
+            crash: *crash,
+            gap_ns: *gap,
+            drift: drift.clone(),
+        })
+        .collect()
+}
+
+/// Shrink a failing session: drop earlier runs, default whole schedules, prefer a plain kill over
+/// a power loss and a one-second gap over anything else, while the same violation class persists.
+pub fn minimise_session(
+    gen: Gen,
+    image: &Arc<FsImage>,
+    comp: &BTreeMap<String, Val>,
+    steps: Vec<ExplicitStep>,
+    mtime_seed: u64,
+    target: &str,
+) -> (Vec<ExplicitStep>, u64) {
+    let mut tests = 0u64;
+    let mut fails = |e: &[ExplicitStep]| -> bool {
+        tests += 1;
+        let r = execute_session(gen, image, &steps_from_explicit(e), mtime_seed, false);
+        let mut good = vec![];
+        judge_session(&r, comp, &mut good).iter().any(|v| violation_class(v) == target)
+    };
+    let mut cur = steps;
+    if !fails(&cur) {
+        return (cur, tests);
+    }
+    // drop earlier runs
+    let mut i = 0;
+    while cur.len() > 1 && i + 1 < cur.len() {
+        let mut cand = cur.clone();
+        cand.remove(i);
+        if fails(&cand) {
+            cur = cand;
+        } else {
+            i += 1;
+        }
+    }
+    // default whole schedules
+    for i in 0..cur.len() {
+        if cur[i].0.iter().all(|d| d.is_default()) {
+            continue;
+        }
+        let mut cand = cur.clone();
+        cand[i].0 = cand[i].0.iter().map(|d| d.defaulted()).collect();
+        if fails(&cand) {
+            cur = cand;
+        }
+    }
+    // fewer differences between the data versions, no crash where none is needed
+    for i in 0..cur.len() {
+        let mut k = 0;
+        while k < cur[i].3.len() {
+            let mut cand = cur.clone();
+            cand[i].3.remove(k);
+            if fails(&cand) {
+                cur = cand;
+            } else {
+                k += 1;
+            }
+        }
+        if cur[i].1.is_some() {
+            let mut cand = cur.clone();
+            cand[i].1 = None;
+            if fails(&cand) {
+                cur = cand;
+            }
+        }
+    }
+    // simpler faults
+    for i in 0..cur.len() {
+        if let Some(c) = cur[i].1 {
+            if c.kind == world::CrashKind::PowerLoss {
+                let mut cand = cur.clone();
+                cand[i].1 = Some(world::CrashPlan { kind: world::CrashKind::Kill, ..c });
+                if fails(&cand) {
+                    cur = cand;
+                }
+            }
+        }
+        if cur[i].2 != 1_000_000_000 && i > 0 {
+            let mut cand = cur.clone();
+            cand[i].2 = 1_000_000_000;
+            if fails(&cand) {
+                cur = cand;
+            }
+        }
+    }
+    (cur, tests)
 }
 
 /// "Same violation" for the minimiser: class + table + kind (the first three signature fields);
@@ -730,6 +1020,7 @@ mod tests {
             digest: 0,
             bytes: 0,
             special: Map::new(),
+            mtime_salt: Map::new(),
         })
     }
 
